@@ -209,7 +209,7 @@ def run(ctx):
     nkb = [c['src'] for c, e in zip(cases, proj) if c['generated'] and e['st'] == 'keepbad']
     ctx.coverage['keep_output_unparseable'] = len(nkb)
     ctx.coverage['keep_output_unparseable_sample'] = nkb[:2]
-    if len(nkb) > 0.02 * sum(1 for c in cases if c['generated']):
+    if len(nkb) > 0.10 * sum(1 for c in cases if c['generated']):
         raise vlib.Infra('%d generated programs have an unparseable name-keeping output: %s' % (len(nkb), nkb[0][:300]))
     ngen = sum(1 for c in cases if c['generated'])
     nmis = sum(1 for c, e in zip(cases, proj) if c['generated'] and e['st'] == 'mismatch')
@@ -240,7 +240,7 @@ def run(ctx):
             ctx.report(dict(src=c['src']), describe(c, p1[0], w1[0]),
                        replay_obj=dict(keep=p1[0]['_keep_text'][:4000], shortened=p1[0]['_ren_text'][:4000], clauses=w1[0]))
         else:
-            raise vlib.Infra('rejection did not reproduce in isolation: %s' % c['src'][:300])
+            raise vlib.Infra('rejection (%s) did not reproduce in isolation: %s' % ('/'.join(why[i]), c['src'][:300]))
     for p in pinned:
         i = next(k for k, c in enumerate(cases) if c['origin'] == 'pinned' and c['src'] == p['src'])
         if i not in why:
